@@ -71,7 +71,8 @@ FIX_COMMITS = ["d6ae502 (passive start-up cancellation: port/listener leak)",
                "820558f (listing of a name the server encoding cannot express ended the session)",
                "4824c94 (listing parsers: non-ASCII digits, years below 1000)",
                "2fbf5a3 (CWD / CDUP are dispatcher barriers)",
-               "f646d71 (data socket of a finished transfer outlived its session)"]
+               "f646d71 (data socket of a finished transfer outlived its session)",
+               "224efa1 (command lines lose their line end and trailing blanks only)"]
 
 # dimensions added after the fourth wave of seeded changes (plug-in APIs as part of the input space)
 EXTRA = {
@@ -407,4 +408,19 @@ _W11 = {
  "C19": " Transfer commands with garbage arguments while a data connection is ready (its fate in-session and after the session); listing facts are typed (decimal ASCII counts, 14-digit times).",
 }
 for _k, _v in _W11.items():
+    EXTRA[_k] = EXTRA.get(_k, "") + _v
+# wave 12
+_W12 = {
+ "C02": " A path segment that begins and ends with a double quote.",
+ "C03": " The right password (or a known login name) followed by a character that is no blank but that str.rstrip() would take (NBSP, U+001F, U+3000).",
+ "C04": " LIST with what looks like an ls switch in front of the path.",
+ "C08": " Names in double quotes; a rename from inside a directory to a bare name in the working directory and back.",
+ "C10": " A barrier command (CWD) that fails in the backend, at every point of the login automaton.",
+ "C11": " A forced PASV response address (dotted quad, host names, empty) with a port pool.",
+ "C14": " A command that ended in 451 earlier in the session.",
+ "C15": " A shared level already in debt through another stream when a stream's own level does its first I/O.",
+ "C17": " A backend call of one session that never returns (executor pools and their thread counts are modelled).",
+ "C18": " Directories of 255 to 3000 entries at the API and behind the server.",
+}
+for _k, _v in _W12.items():
     EXTRA[_k] = EXTRA.get(_k, "") + _v
